@@ -31,7 +31,7 @@ def _case(draw, tier):
     c = gen.to_times(g)
     N = len(c["trains"])
     c["measure"] = draw(st.sampled_from(["ISI", "SPIKE", "SYNC"]))
-    c["mrts"] = draw(gen.mrts_for(g))
+    c["mrts"] = draw(gen.mrts_for(g, allow_auto=True))
     c["ri"] = draw(st.booleans())
     c["max_tau"] = draw(gen.maxtau_for(g))
     c["perm"] = list(draw(st.permutations(list(range(N)))))
@@ -80,6 +80,10 @@ def classify(case):
     N = len(case["trains"])
     labels = ["measure:" + case["measure"], "N=%d" % N,
               "compiled" if case["compiled"] else "fallback"]
+    if case["mrts"] == "auto":
+        labels.append("mrts_auto")
+    if case["ri"]:
+        labels.append("RI")
     if len(_pair_bps(case)) >= 2:
         labels.append("pair_profiles_differ_in_breakpoints")
     labels += sorted(ps.train_kinds(case) & {"empty_train", "identical_trains",
@@ -104,9 +108,17 @@ def run_case(case, ctx):
     pairs = [(x, y) for x in range(N) for y in range(x + 1, N)]
     pprof = {}
     pval = {}
+    pkw = dict(kw)
+    auto = case["mrts"] == "auto"
+    if auto:
+        # 'auto' in a multivariate call is the threshold pooled over ALL trains
+        # (C15); the bivariate reference values are computed with that number
+        trs_, T0_, T1_ = ps.fr_trains(case)
+        pkw["MRTS"] = O.default_thresh(trs_, T0_, T1_)
+    tol = 1e-9 if auto else 1e-10
     for (x, y) in pairs:
-        pprof[(x, y)] = M.model_of(ctx.call("pair_profile", fn["profile"], sts[x], sts[y], **kw))
-        pval[(x, y)] = ctx.call("pair_value", fn["dist"], sts[x], sts[y], **kw)
+        pprof[(x, y)] = M.model_of(ctx.call("pair_profile", fn["profile"], sts[x], sts[y], **pkw))
+        pval[(x, y)] = ctx.call("pair_value", fn["dist"], sts[x], sts[y], **pkw)
     F = ctx.call("multi_profile", fn["profile"], sts, **kw)
     V = ctx.call("multi_value", fn["dist"], sts, **kw)
     perm = case["perm"]
@@ -164,8 +176,8 @@ def run_case(case, ctx):
         ctx.check(ps.close(Vp, Fr(float(V)), tol), "permutation_changes_value",
                   lambda: "perm=%r: %r vs %r" % (perm, float(V), float(Vp)))
 
-    # matrices
-    for ind in (None, case["indices"]):
+    # matrices ('auto' with `indices` is not asserted: pooling is unspecified)
+    for ind in ((None,) if auto else (None, case["indices"])):
         sel = list(range(N)) if ind is None else list(ind)
         ikw = {} if ind is None else {"indices": list(ind)}
         Mx = np.asarray(ctx.call("matrix", fn["matrix"], sts, **ikw, **kw))
